@@ -79,7 +79,7 @@ class Assembler:
     # ------------------------------------------------------------------------------------
     def assemble(self, template_text, unit_name):
         out = []
-        lines = self._expand_uses(template_text.split('\n'))
+        lines = ['#![allow(non_snake_case, unused_imports, unused_variables, dead_code, unused_mut, unused_parens, unused_braces)]'] + self._expand_uses(template_text.split('\n'))
         i = 0
 
         def emit(text, fn=None):
@@ -93,17 +93,42 @@ class Assembler:
             line = lines[i]
             s = line.strip()
             if s.startswith('//@struct ') or s.startswith('//@enum ') or s.startswith('//@const '):
-                kind, rel, name = s.split()[:3]
+                head_, *extra = [x.strip() for x in s.split(' | ')]
+                kind, rel, name = head_.split()[:3]
+                extra = extra + head_.split()[3:]
                 src = self.src(rel)
                 a, b = {'//@struct': src.find_struct, '//@enum': src.find_enum, '//@const': src.find_const}[kind](name)
                 txt = strip_attrs_and_docs(src.text[a:b])
+                for ex in extra:
+                    if ex.startswith('keep='):
+                        # D5: struct projection — only the listed fields are kept (the unit's functions read no others;
+                        # touching a dropped field is a compile error => UNDECIDED)
+                        txt = self._project(txt, ex[5:].split(','))
+                    elif ex.startswith('tysub='):
+                        d = ex[6]
+                        a_, b_ = ex[7:].rstrip(d).split(d)
+                        if a_ not in txt:
+                            raise LostAnchor('type substitution %r not applicable in struct %s' % (a_, name))
+                        txt = txt.replace(a_, b_)
+                eq_impl = ''
+                if 'eq' in extra:
+                    # derive(PartialEq, Eq) on a struct of integer/bool fields is field-wise (= structural) equality (std docs)
+                    from .rustsrc import struct_fields
+                    fl = struct_fields(txt)
+                    if not all(re.fullmatch(r'(u|i)(8|16|32|64|size)|bool', t) for _, t in fl):
+                        raise Unsupported('struct %s: `eq` option needs integer/bool fields' % name)
+                    if 'PartialEq' not in self._kept_derives(src, a, allow_eq=True):
+                        raise LostAnchor('struct %s no longer derives PartialEq' % name)
+                    eq_impl = ('\nimpl vstd::std_specs::cmp::PartialEqSpecImpl for %s {\n\topen spec fn obeys_eq_spec() -> bool { true }\n'
+                               '\topen spec fn eq_spec(&self, other: &%s) -> bool { *self == *other }\n}\n'
+                               'impl PartialEq for %s {\n\t#[verifier::external_body]\n\tfn eq(&self, other: &%s) -> (r: bool) { unimplemented!() }\n}\nimpl Eq for %s {}\n') % ((name,) * 5)
                 if kind == '//@struct':
                     txt = self._publicise(txt)
-                txt = self._kept_derives(src, a) + txt
+                txt = self._kept_derives(src, a) + txt + eq_impl
                 self.items.append(dict(kind=kind[3:], file=rel, name=name, sha=src.sha(a, b)))
                 emit(txt)
             elif s.startswith('//@fn '):
-                parts = [p.strip() for p in s[len('//@fn '):].split('|')]
+                parts = [p.strip() for p in s[len('//@fn '):].split(' | ')]
                 rel, impl, name = parts[0], parts[1], parts[2]
                 opts = parts[3:]
                 j = i + 1
@@ -118,7 +143,49 @@ class Assembler:
             else:
                 emit(line)
             i += 1
+        # Verus allows one module-level `broadcast use` per module: merge the top-level ones.
+        # (labels/fn_lines are line-number based: replaced lines keep their positions)
+        uses = []
+        for idx, l in enumerate(out):
+            m = re.match(r'^broadcast use (.*);\s*$', l)
+            if m:
+                uses.extend(x.strip() for x in m.group(1).split(','))
+                out[idx] = ''
+        if uses:
+            for idx in range(len(out) - 1, -1, -1):
+                if out[idx].startswith('} // verus!'):
+                    out[idx] = 'broadcast use {' + ', '.join(dict.fromkeys(uses)) + '}; } // verus!'
+                    break
+            else:
+                raise Unsupported('template has no `} // verus!` line')
         return '\n'.join(out) + '\n'
+
+    @staticmethod
+    def _project(txt, keep):
+        m = mask(txt)
+        o = m.index('{')
+        c = match_close(m, o)
+        fields = []
+        depth, last = 0, o + 1
+        for i in range(o + 1, c):
+            ch = m[i]
+            if ch in '<([{':
+                depth += 1
+            elif ch in '>)]}' and not (ch == '>' and m[i - 1] == '-'):
+                depth -= 1
+            elif ch == ',' and depth == 0:
+                fields.append(txt[last:i])
+                last = i + 1
+        fields.append(txt[last:c])
+        kept = []
+        for f in fields:
+            mm = re.match(r'\s*(pub(\s*\([^)]*\))?\s+)?((?:r#)?\w+)\s*:', f)
+            if mm and mm.group(3) in keep:
+                kept.append(f.strip())
+        missing = [k for k in keep if not any(re.match(r'(pub(\s*\([^)]*\))?\s+)?' + re.escape(k) + r'\s*:', f) for f in kept)]
+        if missing:
+            raise LostAnchor('struct projection: fields %s not found' % missing)
+        return txt[:o + 1] + '\n\t' + ',\n\t'.join(kept) + ',\n' + txt[c:]
 
     @staticmethod
     def _publicise(txt):
@@ -133,7 +200,7 @@ class Assembler:
         return '\n'.join(out)
 
     @staticmethod
-    def _kept_derives(src, a):
+    def _kept_derives(src, a, allow_eq=False):
         """D1 drops attributes, except that `Clone`/`Copy` (needed for by-value use) and
         `PartialEq`/`Eq` are re-emitted when the original derive list has them."""
         # attribute block = contiguous lines above the item start that begin with #[ or ///
@@ -159,8 +226,8 @@ class Assembler:
         keep = []
         for m in re.finditer(r'derive\s*\(([^)]*)\)', blob):
             names = [x.strip() for x in m.group(1).split(',')]
-            for n in ('Clone', 'Copy', 'PartialEq', 'Eq'):
-                if n in names and n not in keep:
+            for n in (('Clone', 'Copy', 'PartialEq', 'Eq') if allow_eq else ('Clone', 'Copy')):
+                if n in names and n not in keep and (n != 'Clone' or 'Copy' in names):
                     keep.append(n)
         if 'Copy' in keep and 'Clone' not in keep:
             keep.insert(0, 'Clone')
@@ -192,12 +259,14 @@ class Assembler:
         sig = src.text[f['sig_start']:f['body_open']].rstrip()
         body = src.text[f['body_open']:f['body_close'] + 1]
         sha = src.sha(f['sig_start'], f['body_close'] + 1)
-        opt = dict(ret=None, stub=False, twin='', rules=None, drops=[], subs=[], sigsubs=[], tail=False)
+        opt = dict(ret=None, stub=False, twin='', rules=None, drops=[], subs=[], sigsubs=[], tail=False, free=None)
         for o_ in opts:
             if o_ == 'stub':
                 opt['stub'] = True
             elif o_ == 'tail':
                 opt['tail'] = True
+            elif o_.startswith('free='):
+                opt['free'] = o_[5:]
             elif o_.startswith('ret='):
                 opt['ret'] = o_[4:]
             elif o_.startswith('twin='):
@@ -223,6 +292,10 @@ class Assembler:
             if a not in sig:
                 raise LostAnchor('signature substitution %r not applicable in %s' % (a, qn))
             sig = sig.replace(a, b)
+        if opt['free']:
+            # emit a trait-impl method as a free function: `Self` is the impl's type (pure renaming)
+            sig = re.sub(r'\bSelf\b', opt['free'], sig)
+            body = re.sub(r'\bSelf\b', opt['free'], body)
         if opt['twin']:
             sig = re.sub(r'\bfn\s+' + re.escape(name) + r'\b', 'fn ' + name + opt['twin'], sig, count=1)
         # ---- split spec into contract + sections
